@@ -24,7 +24,9 @@ def run(chk, F):
     res = chk.guard("panic-site", "K1", lambda: k1.run(chk, F, "C04"))
     if res:
         chk.guard("loop-leaves-on-eof", "parsers", lambda: k1.eof_exits(chk, F, res[1]))
+        chk.guard("loop-progress", "parsers", lambda: k1.loop_progress(chk, F, res[1]))
     chk.guard("context-stays-usable", "helpers::eval", lambda: usable(chk, F))
+    chk.guard("front-end-list-protocol", "cli fmt", lambda: list_protocol(chk, F))
 
 
 def usable(chk, F):
@@ -41,3 +43,57 @@ def usable(chk, F):
     chk.decide(ok, "context-stays-usable", "rink_core::helpers::eval", "writes-limited-to-now-and-ans", fn.where(),
                "evaluation writes only Context.now (before) and previous_result (after): %s" % {k: sorted(v) for k, v in writers.items()},
                "a query can write Context fields %s" % {k: sorted(v) for k, v in writers.items()})
+
+
+def list_protocol(chk, F):
+    """The CLI's long-output renderer computes `indent * 2 - 2` on a usize for list separators; that is only safe
+    because (a) every reply that emits a ListSep span has emitted a ListBegin span before it, and (b) the renderer's
+    ListBegin arm - the one that increments `indent` - is the first arm any ListBegin/ListSep content span can reach."""
+    import hirutil as H
+    from facts import hir_walk
+    rule = "front-end-list-protocol"
+    n = 0
+    for fn in F.by_crate["rink_core"]:
+        seps = [bb for bb, t in fn.calls() if "callee" in t and t["callee"]["path"].split("::")[-1] == "list_sep" and "Span" in t["callee"]["path"]]
+        if not seps:
+            continue
+        begs = [bb for bb, t in fn.calls() if "callee" in t and t["callee"]["path"].split("::")[-1] == "list_begin" and "Span" in t["callee"]["path"]]
+        for sb in seps:
+            n += 1
+            chk.decide(any(fn.dominates(b, sb) for b in begs), rule, "rink_core::" + k1.normfn(fn.path), "list_sep-after-list_begin", fn.where(sb),
+                       "a ListSep span is only produced after a ListBegin span of the same reply",
+                       "a reply emits a list separator without a preceding list_begin: the CLI's long-output renderer underflows `indent * 2 - 2`")
+    if n < 6:
+        chk.anchor_lost(rule, "rink_core replies", "only %d list_sep producers found (expected >= 6)" % n)
+    fn = F.find("rink", "fmt::to_ansi_inner")
+    fk = "rink::fmt::to_ansi_inner"
+    h = F.hir_of(fn)
+    ms = [m for m in hir_walk(h["body"]) if m.get("k") == "Match" and m.get("src") == "Normal" and any("FmtToken::ListBegin" in H.pat_str(a["pat"]) for a in m["arms"])]
+    if len(ms) != 1:
+        raise AnchorLost("to_ansi_inner: span dispatch match not found")
+    arms = ms[0]["arms"]
+
+    def can_match(a, tok):
+        p = H.pat_str(a["pat"])
+        if not p.startswith("Span::Content"):
+            return False
+        m = __import__("re").search(r"token: (?:\w+@)?FmtToken::(\w+)", p)
+        return (m is None) or m.group(1) == tok
+    for tok, need_inc in (("ListBegin", True), ("ListSep", False)):
+        # the first arm whose pattern admits the span (an arm guarded by anything but `long_output` may take it too)
+        first = next((a for a in arms if can_match(a, tok)), None)
+        ok = first is not None and ("FmtToken::" + tok) in H.pat_str(first["pat"]) and first.get("guard") is not None and H.expr_str(first["guard"]) == "long_output"
+        if ok and need_inc:
+            # indent += 1 is the first statement of the arm
+            st = H.stmts_of(first["body"])
+            ok = bool(st) and st[0][1].get("k") == "AssignOp" and (H.local_name(st[0][1].get("lhs", {})) or ("",))[0] == "indent"
+        chk.decide(ok, rule, fk, "first-arm-for-" + tok, "%s:%d" % (fn.file, first["line"] if first else arms[0]["line"]),
+                   "with long_output, a %s span reaches its own arm first%s" % (tok, " and `indent` is incremented before it is used" if need_inc else ""),
+                   "with long_output a %s content span is taken by an earlier arm (`%s`)%s: `indent` is not incremented and the next separator computes 0 * 2 - 2" % (
+                       tok, H.pat_str(first["pat"])[:60] if first else "none", "" if not need_inc else " or the arm does not start with `indent += 1`"))
+    # the subtraction occurs only in those two arms
+    subs = [x for x in hir_walk(h["body"]) if x.get("k") == "Binary" and x.get("op") == "Sub" and "indent" in H.expr_str(x)]
+    inarms = [x for a in arms if ("FmtToken::ListBegin" in H.pat_str(a["pat"]) or "FmtToken::ListSep" in H.pat_str(a["pat"])) for x in hir_walk(a["body"])
+              if x.get("k") == "Binary" and x.get("op") == "Sub" and "indent" in H.expr_str(x)]
+    chk.decide(len(subs) == len(inarms) and len(subs) >= 1, rule, fk, "indent-arithmetic-only-in-list-arms", fn.where(),
+               "`indent * 2 - 2` is computed only in the ListBegin / ListSep arms (%d sites)" % len(subs), "`indent - ..` is computed outside the list arms")
